@@ -77,6 +77,24 @@ pub fn check(ctx: &Ctx, x: &[u8], valid_modern: Option<&Val>, origin: &str) {
     }
 }
 
+/// For well-formed deep nestings the two decoders must agree on acceptance as well.
+fn check_nesting(ctx: &Ctx, x: &[u8], origin: &str) {
+    let o = guarded(|| erltf::decode(x).is_ok());
+    let b = guarded(|| erltf::decode_borrowed(x).is_ok());
+    if let (Ok(o), Ok(b)) = (o, b) {
+        if o != b {
+            ctx.eval(1);
+            ctx.viol(
+                if b { "C13:borrowed-accepts-owned-rejects:nesting-limit" } else { "C13:borrowed-rejects-modern:nesting-limit" },
+                "the two decoders draw the nesting limit at different depths",
+                json!({"origin": origin, "owned_accepts": o, "borrowed_accepts": b, "bytes": hex_cap(x, 24), "len": x.len()}),
+            );
+            return;
+        }
+    }
+    check(ctx, x, None, origin);
+}
+
 pub fn run(ctx: &Ctx) {
     ctx.rule("inputs = valid encodings restricted to the modern tag set (from the independent writer) + their truncations at every offset + byte mutations/splices + random bytes; distinct = distinct (outcome pair of the two decoders, first tag byte, input-length bucket, value-kind set for valid inputs)");
     ctx.assume("modern tag set = 70,77,88,89,90,97,98,104..111,112,113,116,118,119,120 (what OTP 26+ emits over distribution)");
@@ -139,6 +157,37 @@ pub fn run(ctx: &Ctx) {
             }
             cls(ctx, &cur, "mut");
             check(ctx, &cur, None, "mutation");
+        }
+    }
+    // nesting boundary: both decoders must draw the line at the same depth, whatever sits inside
+    let units: Vec<(&str, Vec<u8>)> = vec![
+        ("tuple", vec![104, 1]),
+        ("large-tuple", vec![105, 0, 0, 0, 1]),
+        ("list-head", vec![108, 0, 0, 0, 1]),
+        ("list-tail", vec![108, 0, 0, 0, 1, 97, 1]),
+        ("map-value", vec![116, 0, 0, 0, 1, 97, 1]),
+        ("map-key", vec![116, 0, 0, 0, 1]),
+    ];
+    let inners: Vec<(&str, Vec<u8>)> = vec![("leaf", vec![97, 7]), ("empty-tuple", vec![104, 0]), ("nil", vec![106]), ("atom", vec![119, 1, b'x']), ("pid", vec![88, 119, 1, b'n', 0, 0, 0, 1, 0, 0, 0, 2, 0, 0, 0, 3])];
+    for (uname, unit) in &units {
+        for (iname, inner) in &inners {
+            for depth in (1usize..=6).chain(120..=130).chain(240..=272) {
+                let mut x = vec![131u8];
+                for _ in 0..depth {
+                    x.extend_from_slice(unit);
+                }
+                x.extend_from_slice(inner);
+                // close what needs closing: list heads need a tail, map keys need a value
+                for _ in 0..depth {
+                    match *uname {
+                        "list-head" => x.push(106),
+                        "map-key" => x.extend_from_slice(&[97, 0]),
+                        _ => {}
+                    }
+                }
+                ctx.class(&format!("nesting/{}/{}/{}", uname, iname, if depth < 200 { "shallow" } else { "at-limit" }));
+                check_nesting(ctx, &x, &format!("nesting {} x{} around {}", uname, depth, iname));
+            }
         }
     }
     // random bytes, with and without the version byte
